@@ -205,7 +205,7 @@ static std::vector<std::string> run_word(const vf::Case& c, Make make, bool exo,
                     else {
                         tok = "other";
                         if (twin_noexo) { Belief o3(np, n); junk(o3); twin_noexo->P().predict(in, o3); if (eq(out, o3)) tok = "stateonly"; }
-                        if (tok == "other" && exo && cfg == "boot" && exo_only_match(c, in, out)) tok = "exoonly";
+                        if (tok == "other" && exo && (cfg == "boot" || cfg == "boot2") && exo_only_match(c, in, out)) tok = "exoonly";
                     }
                 }
             } else {
